@@ -4,6 +4,7 @@
 import SymfcModel.Model.Inst
 import SymfcModel.Lemmas.LinAlg
 import SymfcModel.Lemmas.SumRule
+import SymfcModel.Lemmas.TensorSym
 namespace Symfc.C03
 open Symfc
 
@@ -80,6 +81,26 @@ theorem fast_rows_are_the_reference_rows_with_independent_second_atom (N n : Nat
     SumRule.rowCols N n ad none cfgF indep rest x =
       (if indep.contains (rest.getD 0 0) then SumRule.rowCols N n ad none cfgS indep rest x else []) := by
   rw [SumRule.rowCols_fast N n ad cfgF hF indep rest x, SumRule.rowCols_stable N n ad cfgS hS indep rest x]
+
+section Everywhere
+open TensorSym
+
+/-- C03.c: from the rows the code actually builds (sum over the FIRST atom index, SECOND atom independent) to the full
+    property: for a tensor that is invariant under index permutations (C01) and under lattice translations (C08), the sum
+    over ANY one atom index with all other indices fixed vanishes, for EVERY choice of the other atoms. -/
+theorem sum_rule_on_every_index_for_every_atom {K : Type*} [AddCommMonoid K] {N m : Nat}
+    (Φ : (Fin (m + 2) → Fin N × Fin 3) → K)
+    (T : Finset (Equiv.Perm (Fin N))) (indep : Finset (Fin N))
+    (hsym : ∀ (σ : Equiv.Perm (Fin (m + 2))) x, Φ (x ∘ σ) = Φ x)
+    (htr : ∀ τ ∈ T, ∀ x : Fin (m + 2) → Fin N × Fin 3, Φ (fun k => (τ (x k).1, (x k).2)) = Φ x)
+    (hcover : ∀ j, ∃ τ ∈ T, ∃ j₀ ∈ indep, τ j₀ = j)
+    (h : ∀ x : Fin (m + 2) → Fin N × Fin 3, (x 1).1 ∈ indep →
+      ∑ i : Fin N, Φ (Function.update x 0 (i, (x 0).2)) = 0) :
+    ∀ (k : Fin (m + 2)) (x : Fin (m + 2) → Fin N × Fin 3),
+      ∑ i : Fin N, Φ (Function.update x k (i, (x k).2)) = 0 :=
+  S3 Φ T indep hsym htr hcover h
+
+end Everywhere
 
 section L4
 open Matrix
